@@ -5,7 +5,8 @@ PROPERTY = "C05"
 
 
 def tasks(tier):
-    return contract_tasks("contracts.scheduler", "C05", tier=tier) + contract_tasks("contracts.sim_process", "C05", tier=tier)
+    return (contract_tasks("contracts.scheduler", "C05", tier=tier) + contract_tasks("contracts.sim_process", "C05", tier=tier)
+            + contract_tasks("contracts.progress", "C05", tier=tier) + lemma_tasks("contracts.progress", "C05"))
 
 
 TRUSTED_BASE = TRUSTED_CORE
